@@ -112,6 +112,16 @@ def _base_font(names, glyphs=None, empty=()):
     fb.setupNameTable({"familyName": "Verif C03", "styleName": "Regular"})
     fb.setupOS2()
     fb.setupPost()
+    # name records of every kind NameRecord.toXML distinguishes: Unicode-compatible encoding, a legacy encoding with
+    # non-ASCII text (needs the unicode="True" attribute), and bytes that do not decode (written with write8bit);
+    # no control characters: XML 1.0 cannot express them
+    from fontTools.ttLib.tables._n_a_m_e import makeName
+
+    name = fb.font["name"]
+    name.setName("Caf\u00e9 \u00a9 \u2122 & <b> \"q\"", 5, 1, 0, 0)
+    name.setName("  Gr\u00fc\u00dfe \u20ac ", 5, 3, 1, 0x407)
+    name.names.append(makeName(b"\xff\xfeA\x80\x81", 6, 3, 1, 0x409))  # odd length: not UTF-16
+    name.names.append(makeName(b"\x81\x8f&<\x7e\xff", 7, 1, 0, 0))
     return fb.font
 
 
